@@ -19,7 +19,7 @@ type c15Case struct {
 	alias   int        // 0 none, 1 X->T, 2 X->Y,Y->T, 3 X->Y,Y->X (alias cycle; the variable is typed by X), 4 X->Y|Z, Y->X|Z, Z->X|Y (cycle through unions)
 	wrap    int        // 0 T, 1 T[], 2 table<string,T> (v["k"].), 3 table<number,T> (v[1].), 4 a class field of type table<string,T> (v.f.k.), 5 table<string,table<string,T>> (v.x.y.)
 	split   bool       // declarations in defs.lua, variable in main.lua
-	layout  int        // 0 class blocks separated by blank lines; 1 one contiguous comment block; 2 one file per class
+	layout  int        // 0 class blocks separated by blank lines; 1 one contiguous comment block; 2 one file per class; 3 every class declared in two files (each part with its own field)
 }
 
 func (c c15Case) fieldOf(cl string) string { return "f" + strings.ToLower(cl) }
@@ -45,6 +45,9 @@ func (c c15Case) expected() map[string]bool {
 	out := map[string]bool{}
 	for n := range seen {
 		out[c.fieldOf(n)] = true
+		if c.layout == 3 {
+			out[c.fieldOf(n)+"2"] = true
+		}
 	}
 	return out
 }
@@ -60,9 +63,14 @@ func (c c15Case) build() (files map[string]string, mainFile string, access strin
 		if len(c.parents[i]) > 0 {
 			h += " : " + strings.Join(c.parents[i], ", ")
 		}
-		if c.layout == 2 {
+		if c.layout == 2 || c.layout == 3 {
 			perClass["class_"+strings.ToLower(n)+".lua"] = h + "\n---@field " + c.fieldOf(n) + " number\n"
 			fieldLines[c.fieldOf(n)] = [2]interface{}{"class_" + strings.ToLower(n) + ".lua", 1}
+			if c.layout == 3 {
+				// the second part of the class lives in another directory and repeats neither parents nor fields
+				perClass["part2/class_"+strings.ToLower(n)+"_more.lua"] = "---@class " + n + "\n---@field " + c.fieldOf(n) + "2 number\n"
+				fieldLines[c.fieldOf(n)+"2"] = [2]interface{}{"part2/class_" + strings.ToLower(n) + "_more.lua", 1}
+			}
 			continue
 		}
 		add(h)
@@ -176,7 +184,7 @@ func c15Cases(tier string) []c15Case {
 		for alias := 0; alias < 5; alias++ {
 			for wrap := 0; wrap < 6; wrap++ {
 				for _, split := range []bool{false, true} {
-					for layout := 0; layout < 3; layout++ {
+					for layout := 0; layout < 4; layout++ {
 						out = append(out, c15Case{two, ps, alias, wrap, split, layout})
 					}
 				}
@@ -187,7 +195,7 @@ func c15Cases(tier string) []c15Case {
 	// thorough: crossed with the alias shapes and wrappers as well
 	three := []string{"A", "B", "C"}
 	for _, ps := range graphs(three) {
-		for layout := 0; layout < 3; layout++ {
+		for layout := 0; layout < 4; layout++ {
 			for _, split := range []bool{false, true} {
 				out = append(out, c15Case{three, ps, 0, 0, split, layout})
 				if tier == "thorough" {
@@ -288,9 +296,10 @@ func c15Space(tier string) *core.Space {
 				}
 			}
 			for _, n := range c.classes {
-				f := c.fieldOf(n)
-				if labels[f] && !want[f] && c.alias < 3 {
-					extra = append(extra, f)
+				for _, f := range []string{c.fieldOf(n), c.fieldOf(n) + "2"} {
+					if labels[f] && !want[f] && c.alias < 3 {
+						extra = append(extra, f)
+					}
 				}
 			}
 			if c.wrap == 0 && c.alias < 3 && !labels["extra"] {
